@@ -22,6 +22,14 @@ El(inst, a) == inst.els[ElIdx(inst, a)][2]
 Declares(cls, name) == \E i \in 1..Len(Attrs(cls)) : Attrs(cls)[i].a = name /\ Attrs(cls)[i].k \in {"elem", "sub"}
 DeclaresOther(cls, name) == \E i \in 1..Len(Attrs(cls)) : Attrs(cls)[i].a = name /\ Attrs(cls)[i].k \notin {"elem", "sub"}
 
+\* attributes an instance carries that its class does not declare (the statement shortcuts staple the wrapper's
+\* TRNUID and CLTCOOKIE onto response statements); events recorded without them have no "extra" field
+Extras(inst) == IF "extra" \in DOMAIN inst THEN inst.extra ELSE <<>>
+ExtraIdx(inst, a) == LET S == {i \in 1..Len(Extras(inst)) : Extras(inst)[i][1] = a} IN IF S = {} THEN 0 ELSE CHOOSE i \in S : TRUE
+HasExtra(inst, a) == ExtraIdx(inst, a) # 0
+OwnExtra(inst, a) == LET x == Extras(inst)[ExtraIdx(inst, a)][2] IN IF x.set THEN [k |-> "value", v |-> x.v] ELSE [k |-> "none"]
+Props(cls) == Schema[cls].props
+
 Own(inst, name, path) ==
   IF ~HasEl(inst, name) THEN [k |-> "none"]
   ELSE IF IsInst(El(inst, name)) THEN [k |-> "node", p |-> Append(path, <<"e", name>>)]
@@ -35,16 +43,6 @@ Below(inst, path) ==
              THEN LET p == Append(path, <<"e", inst.els[i][1]>>) IN
                   acc \o <<[p |-> p, n |-> inst.els[i][2]]>> \o Below(inst.els[i][2], p)
              ELSE acc, <<>>, [i \in 1..Len(inst.els) |-> i])
-
-Lookup(inst, name) ==
-  IF Declares(inst.cls, name) THEN Own(inst, name, <<>>)
-  ELSE IF DeclaresOther(inst.cls, name) THEN [k |-> "open"]
-  ELSE LET B == Below(inst, <<>>)
-           D == SelectSeq(B, LAMBDA x : Declares(x.n.cls, name))
-           O == SelectSeq(B, LAMBDA x : DeclaresOther(x.n.cls, name)) IN
-       IF Len(O) > 0 \/ Len(D) > 1 THEN [k |-> "open"]
-       ELSE IF Len(D) = 0 THEN [k |-> "attrerror"]
-       ELSE Own(D[1].n, name, D[1].p)
 
 (***************************************************************************)
 (* Shortcuts: each is "the object found by walking the full path"          *)
@@ -85,33 +83,82 @@ SeclistSecurities(msg, path) ==
 CurAgg(inst) == IF HasEl(inst, "currency") THEN "currency" ELSE IF HasEl(inst, "origcurrency") THEN "origcurrency" ELSE ""
 OrigcurrencyClasses == {c \in Classes : Declares(c, "currency") /\ Declares(c, "origcurrency")}
 
-Shortcut(inst, name) ==
+\* the shortcut `name` of the aggregate inst found at `at` (paths in the result are relative to the receiver)
+ShortcutAt(inst, name, at) ==
   LET c == inst.cls IN
-  CASE c = "OFX" /\ name = "statements" -> [k |-> "nodes", ps |-> OfxStatements(inst)]
+  CASE c = "OFX" /\ name = "statements" -> [k |-> "nodes", ps |-> OfxStatements(inst)]     \* OFX is never below another aggregate
     [] c = "OFX" /\ name = "securities" ->
          [k |-> "nodes", ps |-> IF HasEl(inst, "seclistmsgsrsv1")
-                                THEN SeclistSecurities(El(inst, "seclistmsgsrsv1"), << <<"e", "seclistmsgsrsv1">> >>) ELSE <<>>]
+                                THEN SeclistSecurities(El(inst, "seclistmsgsrsv1"), Append(at, <<"e", "seclistmsgsrsv1">>)) ELSE <<>>]
     [] c = "OFX" /\ name = "signon" ->
-         IF HasEl(inst, "signonmsgsrqv1") THEN Walk(inst, <<"signonmsgsrqv1", "sonrq">>, <<>>)
-         ELSE Walk(inst, <<"signonmsgsrsv1", "sonrs">>, <<>>)
+         IF HasEl(inst, "signonmsgsrqv1") THEN Walk(inst, <<"signonmsgsrqv1", "sonrq">>, at)
+         ELSE Walk(inst, <<"signonmsgsrsv1", "sonrs">>, at)
     [] c \in {"BANKMSGSRQV1", "BANKMSGSRSV1", "CREDITCARDMSGSRQV1", "CREDITCARDMSGSRSV1", "INVSTMTMSGSRQV1", "INVSTMTMSGSRSV1"}
-         /\ name = "statements" -> [k |-> "nodes", ps |-> MsgStatements(inst, <<>>)]
-    [] c = "SECLISTMSGSRSV1" /\ name = "securities" -> [k |-> "nodes", ps |-> SeclistSecurities(inst, <<>>)]
-    [] c = "STMTRS" /\ name = "account" -> Walk(inst, <<"bankacctfrom">>, <<>>)
-    [] c = "CCSTMTRS" /\ name = "account" -> Walk(inst, <<"ccacctfrom">>, <<>>)
-    [] c = "INVSTMTRS" /\ name = "account" -> Walk(inst, <<"invacctfrom">>, <<>>)
-    [] c \in {"STMTRS", "CCSTMTRS"} /\ name = "transactions" -> Walk(inst, <<"banktranlist">>, <<>>)
-    [] c = "INVSTMTRS" /\ name = "transactions" -> Walk(inst, <<"invtranlist">>, <<>>)
-    [] c \in {"STMTRS", "CCSTMTRS"} /\ name = "balance" -> Walk(inst, <<"ledgerbal">>, <<>>)
-    [] c = "INVSTMTRS" /\ name = "positions" -> Walk(inst, <<"invposlist">>, <<>>)
-    [] c = "INVSTMTRS" /\ name = "balances" -> Walk(inst, <<"invbal">>, <<>>)
+         /\ name = "statements" -> [k |-> "nodes", ps |-> MsgStatements(inst, at)]
+    [] c = "SECLISTMSGSRSV1" /\ name = "securities" -> [k |-> "nodes", ps |-> SeclistSecurities(inst, at)]
+    [] c = "STMTRS" /\ name = "account" -> Walk(inst, <<"bankacctfrom">>, at)
+    [] c = "CCSTMTRS" /\ name = "account" -> Walk(inst, <<"ccacctfrom">>, at)
+    [] c = "INVSTMTRS" /\ name = "account" -> Walk(inst, <<"invacctfrom">>, at)
+    [] c \in {"STMTRS", "CCSTMTRS"} /\ name = "transactions" -> Walk(inst, <<"banktranlist">>, at)
+    [] c = "INVSTMTRS" /\ name = "transactions" -> Walk(inst, <<"invtranlist">>, at)
+    [] c \in {"STMTRS", "CCSTMTRS"} /\ name = "balance" -> Walk(inst, <<"ledgerbal">>, at)
+    [] c = "INVSTMTRS" /\ name = "positions" -> Walk(inst, <<"invposlist">>, at)
+    [] c = "INVSTMTRS" /\ name = "balances" -> Walk(inst, <<"invbal">>, at)
     [] c \in {"STMTTRNRS", "STMTENDTRNRS", "CCSTMTTRNRS", "CCSTMTENDTRNRS", "INVSTMTTRNRS"} /\ name = "statement" ->
-         Walk(inst, <<StatementChild[c]>>, <<>>)
-    [] c = "PROFTRNRS" /\ name = "profile" -> Walk(inst, <<"profrs">>, <<>>)
-    [] c = "SONRS" /\ name \in {"org", "fid"} -> IF HasEl(inst, "fi") THEN Walk(inst, <<"fi", name>>, <<>>) ELSE [k |-> "open"]
+         Walk(inst, <<StatementChild[c]>>, at)
+    [] c = "PROFTRNRS" /\ name = "profile" -> Walk(inst, <<"profrs">>, at)
+    [] c = "SONRS" /\ name \in {"org", "fid"} -> IF HasEl(inst, "fi") THEN Walk(inst, <<"fi", name>>, at) ELSE [k |-> "open"]
     [] c \in OrigcurrencyClasses /\ name \in {"cursym", "currate"} ->
          IF CurAgg(inst) = "" THEN [k |-> "none"] ELSE Walk(inst, <<CurAgg(inst), name>>, <<>>)
     [] c \in OrigcurrencyClasses /\ name = "curtype" ->
          IF CurAgg(inst) = "" THEN [k |-> "none"] ELSE [k |-> "text", s |-> El(inst, CurAgg(inst)).cls]
     [] OTHER -> [k |-> "open"]
+Shortcut(inst, name) == ShortcutAt(inst, name, <<>>)
+
+\* Flat access.  A name is DEFINED by an aggregate that declares it as a non-repeated child, carries it as a stapled
+\* attribute, or has a shortcut (property) of that name; the result is left open when several present descendants define it
+Lookup(inst, name) ==
+  IF Declares(inst.cls, name) THEN Own(inst, name, <<>>)
+  ELSE IF HasExtra(inst, name) THEN OwnExtra(inst, name)
+  ELSE IF DeclaresOther(inst.cls, name) \/ name \in Props(inst.cls) THEN [k |-> "open"]
+  ELSE LET B == Below(inst, <<>>)
+           D == SelectSeq(B, LAMBDA x : Declares(x.n.cls, name))
+           X == SelectSeq(B, LAMBDA x : ~Declares(x.n.cls, name) /\ HasExtra(x.n, name))
+           P == SelectSeq(B, LAMBDA x : name \in Props(x.n.cls))
+           O == SelectSeq(B, LAMBDA x : DeclaresOther(x.n.cls, name)) IN
+       IF Len(O) > 0 \/ Len(D) + Len(X) + Len(P) > 1 THEN [k |-> "open"]
+       ELSE IF Len(D) = 1 THEN Own(D[1].n, name, D[1].p)
+       ELSE IF Len(X) = 1 THEN OwnExtra(X[1].n, name)
+       ELSE IF Len(P) = 1 THEN ShortcutAt(P[1].n, name, P[1].p)
+       ELSE [k |-> "attrerror"]
+
+(***************************************************************************)
+(* Stapling: reading `statements` on a RESPONSE message set (or on the OFX *)
+(* above it) sets trnuid / cltcookie of every statement to those of its    *)
+(* wrapper; nothing else ever adds an undeclared attribute.                *)
+(***************************************************************************)
+RsStatementWrappers == {"STMTTRNRS", "STMTENDTRNRS", "CCSTMTTRNRS", "CCSTMTENDTRNRS", "INVSTMTTRNRS"}
+RsStatements == {"STMTRS", "STMTENDRS", "CCSTMTRS", "CCSTMTENDRS", "INVSTMTRS"}
+ExtraNamesOK(inst) == \A i \in 1..Len(Extras(inst)) : inst.cls \in RsStatements /\ Extras(inst)[i][1] \in {"trnuid", "cltcookie"}
+ElOrNone(inst, a) == IF HasEl(inst, a) THEN [k |-> "value", v |-> El(inst, a)] ELSE [k |-> "none"]
+\* a wrapper whose statement carries stapled attributes: they are the wrapper's own
+WrapperAgrees(w) ==
+  (w.cls \in RsStatementWrappers /\ HasEl(w, StatementChild[w.cls])) =>
+     LET st == El(w, StatementChild[w.cls]) IN
+     \A a \in {"trnuid", "cltcookie"} : HasExtra(st, a) => OwnExtra(st, a) = ElOrNone(w, a)
+RECURSIVE ExtrasOK(_)
+ExtrasOK(inst) ==
+  /\ ExtraNamesOK(inst) /\ WrapperAgrees(inst)
+  /\ \A i \in 1..Len(inst.els) : IsInst(inst.els[i][2]) => ExtrasOK(inst.els[i][2])
+  /\ \A i \in 1..Len(inst.mem) : IsInst(inst.mem[i]) => ExtrasOK(inst.mem[i])
+\* after `statements` was read on a response message set: every statement found carries both attributes
+RECURSIVE NodeAt(_, _)
+NodeAt(inst, path) ==
+  IF path = <<>> THEN inst
+  ELSE IF path[1][1] = "e" THEN NodeAt(El(inst, path[1][2]), Tail(path))
+  ELSE NodeAt(inst.mem[CHOOSE i \in 1..Len(inst.mem) : ToString(i) = path[1][2]], Tail(path))
+StapledAfter(inst, paths) ==
+  \A i \in 1..Len(paths) :
+     LET st == NodeAt(inst, paths[i]) IN
+     st.cls \in RsStatements => (HasExtra(st, "trnuid") /\ HasExtra(st, "cltcookie"))
 =============================================================================
